@@ -3,7 +3,7 @@
    Process-level cells that outlive an execution, and the programs ("polluters") that write them:
      num      the predefined value 数值                      incNum    以数值（自增：5）
      excctor  the constructor of the predefined type 异常    redefExc  如何新建异常？ …
-     libctor  the constructor of a library type              redefLib  导入《@库》 + 如何新建‹库类型›？ …
+     libctor  the constructor of a library type              redefLib  导入《@库》 + 如何新建‹库类型›？ …   redefLibAlias  the same through a variable holding the type
      libdef   the default property values of a library type  mutLib    mutate a dictionary default through an instance
      frames   call frames left behind by a failing program   failDeep  error raised three calls deep
      names    names declared by a program                    declare   令‹名› = …
@@ -30,7 +30,7 @@ EXTENDS Integers, Sequences, FiniteSets, TLC, Json
 
 CONSTANTS Design, Mode, MaxN, Conc
 
-Polluters == {"incNum", "redefExc", "redefLib", "mutLib", "failDeep", "declare", "importLib", "mutResp", "fileImport", "varInputInc", "ctorDeclare"}
+Polluters == {"incNum", "redefExc", "redefLib", "mutLib", "failDeep", "declare", "importLib", "mutResp", "fileImport", "varInputInc", "ctorDeclare", "redefLibAlias"}
 Pristine == [num |-> 0, excctor |-> "builtin", libctor |-> "builtin", libdef |-> "clean", frames |-> 0, names |-> {}, libs |-> {},
              respdef |-> "clean", modpath |-> "fresh", numvar |-> 0, natnames |-> {}, report |-> "own"]
 
@@ -87,6 +87,7 @@ Reqs == 1..Conc
 Effect(p, c) == CASE p = "incNum" -> [c EXCEPT !.num = @ + 5]
                   [] p = "redefExc" -> [c EXCEPT !.excctor = "user"]
                   [] p = "redefLib" -> [c EXCEPT !.libctor = "user"]
+                  [] p = "redefLibAlias" -> [c EXCEPT !.libctor = "user"]      \* the library type reached through a VARIABLE that holds it (令T = HTTP请求; 如何新建T？)
                   [] p = "mutLib" -> [c EXCEPT !.libdef = "dirty"]
                   [] p = "failDeep" -> [c EXCEPT !.frames = 3, !.report = "foreign"]
                   [] p = "declare" -> [c EXCEPT !.names = @ \cup {"X"}]
